@@ -123,8 +123,8 @@ def run(ctx, chk):
                 and prints == [want_print] and ev_[-1] == want_print)
         chk.check(R, good, inst, "effects of main: %s; expected: open the `input` argument, read it to the end, load_bytes of exactly that buffer, then print %s followed by a newline and nothing else" % (
             ev_, "the disassembly" if okcase else "the error"), W, key="C20:main:%s" % okcase, sample=str(ev_))
-    req = [show(n) for n in walk(f["body"]) if n[0] == "mcall" and n[2] == "required"]
-    chk.check(R, any('with_name("input")' in r_ and r_.endswith(".required(true)") for r_ in req), "main_required_arg", "argument declaration: %s" % req, W)
+    req = [show(n) for g_ in dis.fns("rspirv_dis") for n in walk(g_["body"]) if n[0] == "mcall" and n[2] == "required"]
+    chk.check(R, any(("with_name(" in r_ or "Arg::new(" in r_) and ".required(true)" in r_ for r_ in req), "main_required_arg", "argument declaration: %s" % req, W)
 
     # panic census from main
     g = panicx.Graph(ctx)
